@@ -130,17 +130,19 @@ def run(ck):
     for i in range(ck.n(4, 12)):
         kern, extra = [('l2', {}), ('l1', {}), ('lpq', dict(norm_p=1.5)), ('sum_power_laplace', {})][i % 4]
         n, d, nout = 80, 3, [1, 2][i % 2]
-        X = rng.standard_normal((n, d)); W = rng.standard_normal((d, nout)); Y = X @ W
+        # every other pair: targets recorded in small units (1e-4): tiny gradients, the un-normalised accumulator is of order 1e-8
+        yscale = [1.0, 1e-4][(i // 2) % 2]
+        X = rng.standard_normal((n, d)); W = rng.standard_normal((d, nout)); Y = X @ W * yscale
         iters = [4, 5][i % 2]
         xr.seed_all(1490 + i + ck.seed)
         m = xr.RealRFM(kernel=kern, iters=iters, bandwidth=5.0, exponent=1.0, device='cpu', diag=False, verbose=False, tuning_metric='mse', **extra)
-        desc = dict(kind='converging', i=i, kernel=kern, n=n, d=d, nout=nout, iters=iters, seed=ck.seed)
+        desc = dict(kind='converging', i=i, kernel=kern, n=n, d=d, nout=nout, iters=iters, target_scale=yscale, seed=ck.seed)
         try:
             with xr.quiet():
                 m.fit((T(X), T(Y)), (T(X[:20]), T(Y[:20])), iters=iters, reg=1e-3, verbose=False, return_best_params=False)
         except Exception as e:
             ck.violation(f'fit raised {e!r} on {desc}', dict(desc), key='fit-raise'); continue
-        ck.case(desc, nontrivial=True); ck.count('converging fit (linear target)')
+        ck.case(desc, nontrivial=True); ck.count(f'converging fit (linear target, scale {yscale})')
         if m.use_sqrtM and m.sqrtM is not None and m.M is not None:
             R = m.sqrtM.double().numpy(); Mm = m.M.double().numpy()
             dev = float(np.max(np.abs(R @ R - Mm)))
